@@ -93,6 +93,9 @@ class AccessDB:
                     if "pthread_" in g["type"]:
                         continue
                     top = self.R.top_field(r[1], r[2]) if g["type"].startswith("%struct") else None
+                    if g["type"].startswith("[") and g["type"].rstrip("]").endswith("*") and r[2] is not None and g.get("internal"):
+                        # a file-static array of object pointers used slot by slot (`queues[ERROR_QUEUE]`): every constant slot is an object of its own
+                        top = "[%d]" % (r[2] // 8)
                     region = (r[1], top)
                     for ls in states:
                         # unknown location inside a heap object is a wildcard (None) for the race rule; the global slot itself is "<in>"
@@ -117,7 +120,7 @@ class AccessDB:
             if inf:
                 return inf, "inferred (tabled lock %s no longer exists)" % l
         # a file-static object that is not in the table (renamed, or new): the lock held at the majority of its accesses
-        if gd is not None and gd.get("internal") and top is None:
+        if gd is not None and gd.get("internal") and (top is None or top.startswith("[")):
             inf = self.inferred(region)
             if inf:
                 return inf, "inferred from the accesses (file-static object without a table row)"
